@@ -127,10 +127,16 @@ func (n *Nat) EuclideanDivVarTime(remainder, numerator, denominator *Nat) ct.Boo
 	nn := (*saferith.Nat)(numerator)
 	dd := saferith.ModulusFromNat((*saferith.Nat)(denominator))
 
+	// numerator.AnnouncedLen()-dd.BitLen()+2 is negative when the denominator is more than two bits
+	// longer than the numerator announces (the quotient is then 0). saferith would give the quotient
+	// that negative announced length: the Mul below then takes a capacity smaller than the
+	// denominator and masks the caller's denominator in place, and from -64 downwards Div and Resize
+	// slice out of range.
+	quotientLen := max(0, min(numerator.AnnouncedLen(), numerator.AnnouncedLen()-dd.BitLen()+2))
 	var qq saferith.Nat
-	qq.Div(nn, dd, -1)
+	qq.Div(nn, dd, quotientLen)
 	((*saferith.Nat)(n)).SetNat(&qq)
-	((*saferith.Nat)(n)).Resize(min(numerator.AnnouncedLen(), numerator.AnnouncedLen()-dd.BitLen()+2))
+	((*saferith.Nat)(n)).Resize(quotientLen)
 	if remainder != nil {
 		var rr saferith.Nat
 		rr.Mul((*saferith.Nat)(denominator), &qq, -1)
